@@ -1,5 +1,7 @@
 import MiniconfVerif.Props.C12
 #print axioms MiniconfVerif.C12.validators_only_on_de
+#print axioms MiniconfVerif.C12.call_order
+#print axioms MiniconfVerif.C12.validators_only_after_success
 #print axioms MiniconfVerif.C12.deny_stops
 #print axioms MiniconfVerif.C12.getter_error_stops
 #print axioms MiniconfVerif.C12.getter_by_mutability
